@@ -137,7 +137,7 @@ pub(crate) fn check_sealed_sst(
         Err(e) => return Err((sig("backward-walk-error"), e)),
     }
     let load = |key: &[u8], ts: u64| -> Result<(), (String, String)> {
-        let mut tomb = false;
+        let mut tomb = crate::tables::stale_flag_for(key, ts);
         let v = table.load(key, ts, &mut tomb).map_err(|e| (sig("load-error"), format!("load failed: {e:?}")))?;
         let (mv, mt) = model_load(entries, key, ts);
         if v != mv || tomb != mt {
@@ -251,7 +251,7 @@ impl Property for BlockRoundTrip {
         let targets = lookup_targets(&c.table);
         for (ks, ts) in c.loads.iter() {
             let key = &targets[gens::sel(*ks, targets.len())];
-            let mut tomb = false;
+            let mut tomb = crate::tables::stale_flag_for(key, *ts);
             match block.load(key, *ts, &mut tomb) {
                 Ok(v) => {
                     let (mv, mt) = model_load(entries, key, *ts);
@@ -527,7 +527,7 @@ impl Property for Rejects {
                     let gen_loads = c.loads.iter().map(|(ks, ts)| (targets[gens::sel(*ks, targets.len())].clone(), *ts));
                     let key_loads = refused_keys.iter().chain(tables::keys_of(entries).iter()).flat_map(|k| [u64::MAX, 20, 0].into_iter().map(move |ts| (k.clone(), ts))).collect::<Vec<_>>();
                     for (k, ts) in gen_loads.chain(key_loads) {
-                        let mut tomb = false;
+                        let mut tomb = crate::tables::stale_flag_for(&k, ts);
                         let v = blk.load(&k, ts, &mut tomb).map_err(|e| ("reject:load-error".to_string(), format!("{e:?}")))?;
                         let (mv, mt) = model_load(entries, &k, ts);
                         if v != mv || tomb != mt {
